@@ -1058,5 +1058,7 @@ func sampleTrans(c TransCase) any {
 func TestC19(t *testing.T) {
 	vh.Drive(t, vh.Spec[PrimCase]{Name: "prim", Quick: 300000, Thorough: 9000000, Gen: genPrim, Run: runPrim, Sample: samplePrim})
 	vh.Drive(t, vh.Spec[OpCase]{Name: "ops", Quick: 120000, Thorough: 3600000, Gen: genOp, Run: runOp, Sample: sampleOp})
+	vh.Drive(t, vh.Spec[vh.Conc[OpCase]]{Name: "concurrent-ops", Quick: 2000, Thorough: 60000, Gen: vh.GenConc(genOp), Run: vh.RunConc(runOp), Repeat: 20})
+	vh.Drive(t, vh.Spec[vh.Conc[PrimCase]]{Name: "concurrent-prim", Quick: 2000, Thorough: 60000, Gen: vh.GenConc(genPrim), Run: vh.RunConc(runPrim), Repeat: 20})
 	vh.Drive(t, vh.Spec[TransCase]{Name: "translate", Quick: 60000, Thorough: 1800000, Gen: genTrans, Run: runTrans, Sample: sampleTrans})
 }
